@@ -75,3 +75,13 @@ package inproc
 //@   before return#2 assert sel("select#1") == 0
 //@   ensures sel("select#1") == 0 ==> isnil(result1) && !isnil(result0)
 //@   ensures sel("select#1") == 1 ==> isnil(result0) && result1 == mangos.ErrClosed
+
+// ---- round 9: both directions notice either end going away (C10, C14: a lost connection is reported) ----
+//@ func (*inproc).Send
+//@   before select#1 assert selwaits(p.closeq) && selwaits(p.peer.closeq) && selsends(p.wq)
+//@   ensures !isnil(result) ==> result == mangos.ErrClosed && sel("select#1") != 0
+//@   ensures isnil(result) ==> sel("select#1") == 0
+//@
+//@ func (*inproc).Recv
+//@   before select#1 assert selwaits(p.closeq) && selwaits(p.peer.closeq) && selwaits(p.rq)
+//@   ensures !isnil(result1) ==> result1 == mangos.ErrClosed && isnil(result0)
